@@ -114,7 +114,7 @@ Allowed(st, ev) ==
     [] ev.e = "tmpsbx" ->
          \* the application creates and destroys one more sandbox of the same type (from a callback
          \* body): allowed there, and it changes nothing about the crossings in progress
-         Len(st.stack) > 0 /\ Top(st).k = "cb" /\ Top(st).ran /\ ev.out = "ok"
+         Len(st.stack) > 0 /\ Top(st).k = "cb" /\ Top(st).ran /\ ev.out \in {"ok", "abort"}
     [] ev.e = "guest_throw" ->
          Len(st.stack) > 0 /\ Top(st).k = "inv" /\ Top(st).ran /\ ~st.unw
     [] ev.e = "guest_call" ->
